@@ -633,14 +633,6 @@ WITNESS_DETACHED = {'mode': 'txmix', 'noguard': True, 'nomodel': True, 'uniq0': 
 CANON = {KEY_FAILED: WITNESS, KEY_RESTORE_CONN: WITNESS_CONN, KEY_DETACHED: WITNESS_DETACHED}
 
 
-def _listed_open(key):
-    try:
-        path = os.path.join(os.path.dirname(os.path.dirname(os.path.abspath(__file__))), 'known_findings.json')
-        return any(f.get('key') == key and f.get('status') == 'open' for f in json.load(open(path))['findings'])
-    except Exception:
-        return False
-
-
 def case_json(case):
     return json.loads(json.dumps(case))
 
@@ -681,12 +673,6 @@ def run(ctx):
             # every stale-instance failure of the unguarded witness is the known consequence of the detaching expire()
             fails = [(KEY_DETACHED if key in ('C20:held-master-stale', 'C20:versions-not-history') else key, what, nstep)
                      for key, what, nstep in fails]
-        if case.get('noguard') and not _listed_open(KEY_DETACHED):
-            # reported to the coordinator; until known_findings.json lists the key the replay is a note, not a verdict
-            for key, what, nstep in fails:
-                if key == KEY_DETACHED:
-                    ctx.note('finding awaiting its known_findings.json entry [%s]: %s' % (key, what[:300]))
-            fails = [f for f in fails if f[0] != KEY_DETACHED]
         seen = set()
         for key, what, nstep in fails:
             if key in seen:
